@@ -333,7 +333,9 @@ pub fn build_history(intents: &[Intent], p: &GenParams, head: &Intent) -> Built 
                 // keep clear of the documented refusal: a split for everyone within a day of a per-affiliate split
                 let clash = s.splits.iter().any(|(g, t)| *g != global && (d - *t).whole_days().abs() <= 3);
                 let global = if clash { s.splits.last().map(|x| x.0).unwrap_or(global) } else { global };
-                let ratio = pick(it.split, &["2-for-1", "3-for-1", "1-for-2", "3-for-2", "1-for-3", "1.0-for-3.0", "2-for-3", "10-for-1", "1-for-10", "1.5-for-1", "7-for-3", "4-for-1", "5-for-1", "1-for-4", "1.0-for-2.0"]);
+                let ratio = pick(it.split, &["2-for-1", "3-for-1", "1-for-2", "3-for-2", "1-for-3", "1.0-for-3.0", "2-for-3", "10-for-1", "1-for-10", "1.5-for-1", "7-for-3", "4-for-1", "5-for-1", "1-for-4", "1.0-for-2.0",
+                    // ratios not in lowest terms
+                    "2-for-4", "4-for-6", "5-for-10", "2-for-6", "6-for-4", "3-for-9"]);
                 let (pa, pb) = ratio.split_once("-for-").unwrap();
                 let (ra, rb) = (Rat::parse(pa).unwrap(), Rat::parse(pb).unwrap());
                 let int_only = !ratio.contains('.') && rb.gt(&ra);
